@@ -6,6 +6,8 @@ package main
 // unconstrained.
 
 import (
+	"fmt"
+	"os"
 	"go/ast"
 	"go/constant"
 	"go/token"
@@ -167,6 +169,20 @@ func (x *Exec) constTermOf(e ast.Expr, t types.Type, info *types.Info) (Term, bo
 		}
 		return Term{}, false
 	}
+	if _, isSig := t.Underlying().(*types.Signature); isSig {
+		// a package-level function used as a value (entry of a dispatch table)
+		if id, ok := e.(*ast.Ident); ok {
+			if fo, ok := info.Uses[id].(*types.Func); ok {
+				if fn := x.P.SSA.FuncValue(fo); fn != nil {
+					return x.FuncRefTerm(fn), true
+				}
+			}
+			if id.Name == "nil" {
+				return BVInt(0, 32), true
+			}
+		}
+		return Term{}, false
+	}
 	cl, ok := e.(*ast.CompositeLit)
 	if !ok {
 		return Term{}, false
@@ -287,11 +303,17 @@ func (x *Exec) constrainGlobal(g *ssa.Global, p PtrV) {
 		x.C.trusted["package variable "+g.Name()+" is declared read-only in the contract file (its address escapes; no store to it was found)"] = true
 	}
 	e, info := x.P.globalInitExpr(g)
+	if os.Getenv("GOVC_DEBUG") != "" {
+		fmt.Fprintf(os.Stderr, "constrainGlobal %s: declared=%v ro=%v init=%v\n", g.Name(), declared, x.P.readOnlyGlobal(g), e != nil)
+	}
 	if e == nil {
 		return
 	}
 	elem := g.Type().Underlying().(*types.Pointer).Elem()
 	t, ok := x.constTermOf(e, elem, info)
+	if os.Getenv("GOVC_DEBUG") != "" {
+		fmt.Fprintf(os.Stderr, "constrainGlobal %s: constTermOf ok=%v\n", g.Name(), ok)
+	}
 	if !ok {
 		return
 	}
@@ -301,5 +323,37 @@ func (x *Exec) constrainGlobal(g *ssa.Global, p PtrV) {
 		x.roInit = map[string]Term{}
 	}
 	x.roInit[p.Base.S] = t
+	// element table of an array literal: loads at a constant index get the element term itself (foldable)
+	if at, ok := elem.Underlying().(*types.Array); ok {
+		if cl, ok := e.(*ast.CompositeLit); ok {
+			elems := map[int64]Term{}
+			idx := int64(0)
+			good := true
+			for _, el := range cl.Elts {
+				val := el
+				if kv, ok := el.(*ast.KeyValueExpr); ok {
+					if ktv, ok := info.Types[kv.Key]; ok && ktv.Value != nil {
+						if k, exact := constant.Int64Val(constant.ToInt(ktv.Value)); exact {
+							idx = k
+						}
+					}
+					val = kv.Value
+				}
+				et, ok := x.constTermOf(val, at.Elem(), info)
+				if !ok {
+					good = false
+					break
+				}
+				elems[idx] = et
+				idx++
+			}
+			if good {
+				if x.roElems == nil {
+					x.roElems = map[string]map[int64]Term{}
+				}
+				x.roElems[p.Base.S] = elems
+			}
+		}
+	}
 	x.C.trusted["read-only package variables hold their constant initialisers ("+g.Name()+")"] = true
 }
